@@ -43,7 +43,7 @@ def one(base, pid, patch, shards):
             b = subprocess.run([PY, "setup.py", "build_ext", "-i"], cwd=tree, capture_output=True, text=True)
             if b.returncode != 0:
                 return patch, "BUILD-FAILED", b.stderr[-300:]
-        env = dict(os.environ, VERIF_SCRATCH=d, VERIF_DIR=VERIF, VERIF_TIER="quick", VERIF_SEED="1",
+        env = dict(os.environ, VERIF_SCRATCH=d, VERIF_DIR=VERIF, VERIF_TIER="quick", VERIF_SEED=os.environ.get("TRY_SEED", "1"),
                    VERIF_REPO_COPY=tree, PYTHONPATH=tree + ":" + VERIF, PYTHONHASHSEED="0",
                    PYTHONDONTWRITEBYTECODE="1")
         try:
